@@ -63,6 +63,11 @@ def gen_plan_reprep(rng):
         r['script'] = {'kind': 'ok', 'delay': rng.choice([0.001, 0.005, 0.03])}
         r['evict'] = rng.random() < 0.6
         r['think'] = rng.choice([0, 0.001, 0.01])
+    if rng.random() < 0.35:
+        # the executor thread that continues a request after its re-PREPARE was answered is descheduled right at the start of
+        # _execute_after_prepare: the PREPARE's stream id is already free (and soon someone else's) while the timeout can still fire
+        p['deep_stalls'] = [['_execute_after_prepare', rng.choice([5, 6, 7, 8]), rng.choice([0.02, 0.05, 0.2]), 12]]
+        p['line_p'] = p.get('line_p') or 0.01
     return p
 
 
@@ -263,9 +268,9 @@ def run_plan(plan, seed, choices=None):
     V = Violations()
     ccl, cconn, cpool = w.ccl, w.cconn, w.cpool
     RF = ccl.ResponseFuture
-    if plan['line_p'] or plan['points']:
+    if plan['line_p'] or plan['points'] or plan.get('deep_stalls'):
         sim.enable_line_preemption([cconn.Connection.send_msg, cconn.Connection.process_msg, cconn.Connection.get_request_id,
-                                    RF._on_timeout, RF._query, RF._set_result, cpool.HostConnection.borrow_connection,
+                                    RF._on_timeout, RF._query, RF._set_result, RF._execute_after_prepare, cpool.HostConnection.borrow_connection,
                                     cpool.HostConnection.return_connection],
                                    p=plan['line_p'], points=plan['points'], est_lines=60 * len(plan['requests']))
     for i, r in enumerate(plan['requests']):
@@ -366,7 +371,7 @@ def run_plan(plan, seed, choices=None):
     status = w.run_until_users_done()
     if st['connect_error']:
         raise HarnessError('connect failed: %s' % st['connect_error'])
-    w.settle(3.0)
+    w.settle(3.0 + sum(d_[2] * d_[3] for d_ in plan.get('deep_stalls', [])))       # (stalled executor tasks still owe their in-flight slots)
     w.drain()
     node = w.fc.nodes[0]
     max_id = min(plan['knobs']['max_in_flight'] - 1, 2 ** 15 - 1) if plan['version'] >= 3 else min(plan['knobs']['max_in_flight'], 127)
